@@ -31,6 +31,7 @@ CONSTANTS NU,        \* use the first NU units of UnitList
           TrOnly,    \* also enumerate transposed arrays whose coordinates were registered in the final order
           AxisBy,    \* "dims": set_value_at_pos takes the axis number from array.dims (get_axis_num)      [the code]
                      \* "indexes": from the position in list(array.indexes)                  [history: seeded defect sb2]
+          StepPrec,  \* "step": an explicit step wins over samplerate [the code, the docstring] / "samplerate" [history: seeded defect r2sb1]
           QueryCast  \* "none": the lookup compares the query as given                                      [the code]
                      \* "coord_dtype": it first converts the query to the coordinate dtype    [history: seeded defect sb1]
 VARIABLES c, pc, i, r
@@ -43,12 +44,24 @@ StartList == <<0, 14, -8, 4>>                 \* a4: start values 0, 3.5, -2, 1 
 Starts   == {StartList[k] : k \in 1..NS}
 SetStarts == <<0, 14, -8>>                    \* start of the axis of dimension d
 
-Fns == {"range_step", "range_size", "time_step", "time_sr", "freq"}
-RangeCases == {x \in [kind : {"range"}, fn : Fns, s : Units, a4 : Starts, m : 1..MaxM, sm : {"near", "fma"}] :
-                 /\ x.fn = "range_size" => Whole(x.m)              \* size = (stop - a)/s must be an integer
-                 /\ x.fn = "time_sr" => x.s[1] = 1                 \* samplerate = 1/s
-                 /\ x.fn \in {"time_step", "time_sr", "freq"} => x.sm = "near"}
-
+\* How the step reaches the constructor: st = a step argument is passed (it is c.s); sr = <<>> or <<samplerate p/q>>
+\* (create_time_range); size = <<>> or <<k>> (create_range_dim).  With st, samplerate / size may agree with the step or
+\* CONFLICT with it (samplerate 2/s, size (stop-a)/s + 2): Req says the step argument is the step (RangeDim!Denoted).
+Opt(fn, st, sr, size) == [fn |-> fn, st |-> st, sr |-> sr, size |-> size]
+RangeOpts(s, m, both) ==
+    {Opt("range", TRUE, <<>>, <<>>), Opt("time", TRUE, <<>>, <<>>), Opt("freq", TRUE, <<>>, <<>>)}
+    \cup (IF Whole(m) THEN {Opt("range", FALSE, <<>>, <<m \div 4>>)} ELSE {})
+    \cup (IF s[1] = 1 THEN {Opt("time", FALSE, <<<<s[2], 1>>>>, <<>>)} ELSE {})
+    \cup (IF both THEN {Opt("range", TRUE, <<>>, <<m \div 4 + 2>>), Opt("time", TRUE, <<<<2 * s[2], s[1]>>>>, <<>>)}
+                        \cup (IF Whole(m) THEN {Opt("range", TRUE, <<>>, <<m \div 4>>)} ELSE {})
+                        \cup (IF s[1] = 1 THEN {Opt("time", TRUE, <<<<s[2], 1>>>>, <<>>)} ELSE {})
+           ELSE {})
+RangeCases == {[kind |-> "range", fn |-> o.fn, st |-> o.st, sr |-> o.sr, size |-> o.size, s |-> s, a4 |-> a4, m |-> m, sm |-> sm] :
+                 s \in Units, a4 \in Starts, m \in 1..MaxM, sm \in {"near", "fma"},
+                 o \in UNION {RangeOpts(u, k, TRUE) : u \in Units, k \in 1..MaxM}}
+RangeCasesOK == {x \in RangeCases :
+                   /\ Opt(x.fn, x.st, x.sr, x.size) \in RangeOpts(x.s, x.m, x.a4 = StartList[1])   \* "both" variants for the first start only
+                   /\ (x.sm = "fma" => x.fn = "range" /\ x.st /\ IsNone(x.size))}
 Positions(n) == {Tk * k : k \in 0..(n - 1)} \cup {Tk * k + 1 : k \in 0..(n - 1)} \cup {Tk * k - 1 : k \in 0..(n - 1)}
                 \cup {Tk * k + 4 : k \in 0..(n - 2)} \cup {-4, Tk * (n - 1) + 4}
 \* dtype of the coordinate array: float64; int64 / int32 when start and step are integers (np.arange(-2, 4) is a legal
@@ -91,15 +104,25 @@ SetCaseOK(x) == /\ (~IsNone(x.nc) => IsNone(x.q[Some(x.nc)]))                 \*
 SetCasesFor(s, sh, dt) ==
     {x \in {[kind |-> "set", s |-> s, dt |-> dt, sh |-> sh, q |-> q, vm |-> vm, reg |-> lay[1], tr |-> lay[2], nc |-> nc] :
                q \in Queries(sh), vm \in {"scalar", "array"}, lay \in Layouts(Len(sh)), nc \in NoCoord(sh)} : SetCaseOK(x)}
-R0 == [len |-> 0, k |-> "none", v |-> -1, ix |-> <<>>, hit |-> TRUE, after |-> <<>>]
+R0 == [es |-> <<0, 1>>, len |-> 0, k |-> "none", v |-> -1, ix |-> <<>>, hit |-> TRUE, after |-> <<>>]
 Init == /\ pc = "start" /\ i = 0
-        /\ \/ c \in RangeCases
+        /\ \/ c \in RangeCasesOK
            \/ c \in IndexCases
            \/ \E s \in SetUnits, sh \in Shapes, dt \in {"f8", "i8", "i4"} : c \in SetCasesFor(s, sh, dt)
         /\ r = IF c.kind = "set" THEN [R0 EXCEPT !.ix = [k \in 1..Len(c.sh) |-> <<>>]] ELSE R0
 
 (* ------------------------------------------------------------ range: Impl *)
-Arange == /\ c.kind = "range" /\ pc = "start"
+\* which step the constructor uses.  create_range_dim / create_time_range: "if step is None: derive it";
+\* StepPrec = "samplerate" is the seeded defect r2sb1 (a samplerate overrides an explicit step; history/)
+Resolve == /\ c.kind = "range" /\ pc = "start"
+           /\ LET fromsr == <<Some(c.sr)[2], Some(c.sr)[1]>>                          \* 1 / samplerate
+                  fromsz == <<c.m * c.s[1], 4 * c.s[2] * Some(c.size)>>               \* (stop - a) / size
+                  es == IF c.fn = "time" /\ StepPrec = "samplerate" /\ ~IsNone(c.sr) THEN fromsr
+                        ELSE IF c.st THEN c.s
+                        ELSE IF ~IsNone(c.sr) THEN fromsr ELSE fromsz
+              IN  r' = [r EXCEPT !.es = es]
+           /\ pc' = "arange" /\ UNCHANGED <<c, i>>
+Arange == /\ c.kind = "range" /\ pc = "arange"
           /\ \E len \in {CeilDiv(c.m, 4)} \cup (IF Stress(c.s) /\ Whole(c.m) THEN {c.m \div 4 + 1} ELSE {}) :
                 r' = [r EXCEPT !.len = len]
           /\ pc' = (IF Trim THEN "trim" ELSE "done") /\ UNCHANGED <<c, i>>
@@ -160,7 +183,7 @@ Write == /\ c.kind = "set" /\ pc = "start" /\ i = Len(c.sh)
                      IN  IF Addressed(r.ix, idx) THEN VAt(c.sh, r.ix, idx, ValueOf(c)) ELSE f]]
          /\ pc' = "done" /\ UNCHANGED <<c, i>>
 
-Next == Arange \/ TrimDrop \/ TrimKeep \/ Check \/ Scan \/ Found \/ Lookup \/ Write
+Next == Resolve \/ Arange \/ TrimDrop \/ TrimKeep \/ Check \/ Scan \/ Found \/ Lookup \/ Write
 Spec == Init /\ [][Next]_vars /\ WF_vars(Next)
 
 Export == (pc = "start" /\ i = 0) => PrintT(<<"CASE", ToJson(c)>>)
@@ -168,6 +191,8 @@ Export == (pc = "start" /\ i = 0) => PrintT(<<"CASE", ToJson(c)>>)
 (* ------------------------------------------------- Impl => Req, and laws *)
 Done == pc = "done"
 \* range
+ImplStep           == (c.kind = "range" /\ pc # "start") => REq(r.es, Denoted(c))
+LawDenoted         == c.kind = "range" => REq(Denoted(c), c.s)          \* the generator is consistent: clauses judge against c.s
 ImplCountWhenWhole == (c.kind = "range" /\ Done) => CountWhole(c.m, r.len)
 ImplCountFloorCeil == (c.kind = "range" /\ Done) => CountFloorCeil(c.m, r.len)
 ImplInside         == (c.kind = "range" /\ Done) => \A j \in 0..(r.len - 1) : j \in RangeIdx(c.m)     \* no point at or after stop
